@@ -42,6 +42,10 @@ const EVT_MESSAGE: Token = Token(0);
 const EVT_STATUS_UPDATE: Token = Token(1);
 const EVT_HEALTH_CHECK: Token = Token(2);
 
+// Upper bound on the number of batches processed per call of `process_events`, so that the
+// caller regains control (e.g. to notice a shutdown request) even under sustained load
+const MAX_BATCHES_PER_WAKEUP: usize = 16;
+
 // Canned response to health check request
 const HTTP_RESPONSE: &str = "HTTP/1.1 200 OK\nContent-Length: 0\nConnection: close\n\n";
 
@@ -89,7 +93,9 @@ impl Server {
         timer.set_timeout(delay, ());
 
         let poll = Poll::new().unwrap();
-        poll.register(&socket, EVT_MESSAGE, Ready::readable(), PollOpt::edge())
+        // Level-triggered: datagrams left in the socket after a bounded amount of work (see
+        // MAX_BATCHES_PER_WAKEUP) are reported again by the next poll
+        poll.register(&socket, EVT_MESSAGE, Ready::readable(), PollOpt::level())
             .unwrap();
         poll.register(
             &timer,
@@ -207,7 +213,7 @@ impl Server {
             crate::verif::emit("evt", vec![("token", crate::verif::V::U(msg.token().0 as u64))]);
 
             match msg.token() {
-                EVT_MESSAGE => loop {
+                EVT_MESSAGE => for _ in 0..MAX_BATCHES_PER_WAKEUP {
                     self.responder_ietf.reset();
                     self.responder_classic.reset();
 
